@@ -167,8 +167,11 @@ class ItemListCollection(Generic[KL], ABC):
                 stacklevel=2,
             )
         fields = list(self.key_fields)
+        # empty lists contribute no rows, but their frames lack the other lists' columns and
+        # would make pandas widen those (integers become floats, inexact beyond 2**53)
+        lists = {k: il for (k, il) in self.items() if len(il) > 0} or dict(self.items())
         return (
-            pd.concat({k: il.to_df(numbers=False) for (k, il) in self.items()}, names=fields)
+            pd.concat({k: il.to_df(numbers=False) for (k, il) in lists.items()}, names=fields)
             .reset_index(fields)
             .reset_index(drop=True)
         )
